@@ -726,6 +726,8 @@ class Node(object):
             individual.original_service_start_date = individual.service_start_date
             individual.service_start_date = False
             individual.time_left = individual.service_end_date - self.now
+            if individual.time_left < 0:
+                individual.time_left = 0 * individual.time_left
             individual.service_time = self.schedule.preemption
             individual.service_end_date = False
             self.number_in_service -= 1
